@@ -10,6 +10,8 @@ func init() { verifRegister("VerifC26TLO", VerifC26TLO) }
 
 var verifC26Skeletons = []string{
 	"int#a8509bda ? = Int;\nlong#22076cba ? = Long;\na.one x:int = a.U;\na.two y:long = a.U;\na.three = a.U;\na.s {t:Type} {n:#} v:t = a.S t n;\na.r {n:#} {t:Type} w:n*[t] = a.R n t;\n---functions---\n@read a.get q:int = a.U;\n@write a.put z:a.U = a.S int 3;\n",
+	// namespaced combinators whose local names coincide with the builtin wrappers' names
+	"int#a8509bda ? = Int;\nlong#22076cba ? = Long;\nstring#b5286e24 ? = String;\nstats.string value:string = stats.String;\nstats.long v:long n:int = stats.Long;\nstats.int = stats.Int;\n---functions---\n@read stats.double x:int = stats.Long;\n",
 	"int#a8509bda ? = Int;\nb.x m:# f:m.0?int g:m.1?%b.x = b.X;\nb.y {X:Type} q:!X = b.Y;\nb.z1 = b.Z;\nb.z2 k:b.X = b.Z;\n---functions---\n@any b.f n:# = b.Z;\n",
 }
 
@@ -72,6 +74,15 @@ func VerifC26TLO() {
 	// every constructor and function exactly once, with its tag and name
 	for _, c := range cs {
 		if c.Builtin {
+			// builtin wrappers have fixed TLO entries: still exactly one entry under their own name and tag
+			found := 0
+			for _, e := range s.Constructors {
+				if v4, ok := e.AsV4(); ok && v4.Id == c.Construct.Name.String() {
+					found++
+					verifAssert(uint32(v4.Name) == c.Construct.ID, "builtin-carries-its-tag")
+				}
+			}
+			verifAssert(found == 1, "builtin-listed-exactly-once")
 			continue
 		}
 		list := s.Constructors
